@@ -12,4 +12,4 @@ for id in "$@"; do
     *) echo "NOT CONFIRMED: $id (worktree kept)";;
   esac
 done
-[ -n "$IDS" ] && python3 tools/run_seeded.py $IDS 2>&1 | grep "^|"
+[ -n "$IDS" ] && python3 tools/run_seeded.py $IDS $RUNSEEDED_FLAGS 2>&1 | grep "^|"
